@@ -2,6 +2,7 @@ pub mod c04;
 pub mod c07;
 pub mod c08;
 pub mod c09;
+pub mod c10;
 pub mod c11;
 pub mod c12;
 pub mod c13;
@@ -10,5 +11,5 @@ pub mod c16;
 pub mod c18;
 
 pub fn all() -> Vec<crate::Prop> {
-    vec![c04::prop(), c07::prop(), c08::prop(), c09::prop(), c11::prop(), c12::prop(), c13::prop(), c14::prop(), c16::prop(), c18::prop()]
+    vec![c04::prop(), c07::prop(), c08::prop(), c09::prop(), c10::prop(), c11::prop(), c12::prop(), c13::prop(), c14::prop(), c16::prop(), c18::prop()]
 }
